@@ -85,6 +85,14 @@ class Ex(object):
             raise ZeroDivisionError('float division by zero')
         return Ex(to_frac(o) / self.f)
 
+    def __pow__(self, o):
+        e = to_frac(o)
+        if e.denominator != 1:
+            raise NotExact('non-integer power')
+        if e < 0 and self.f == 0:
+            raise ZeroDivisionError('0.0 cannot be raised to a negative power')
+        return Ex(self.f ** int(e))
+
     def __neg__(self): return Ex(-self.f)
     def __pos__(self): return self
     def __abs__(self): return Ex(abs(self.f))
